@@ -78,9 +78,15 @@ def handle (j : J) : Except String J := do
        ("sending", J.bool v.st.sending), ("offered_after_disc", J.ofNat v.st.offeredAfterDisc)]))])
   else if part = "B" then
     let acts ← (← j.array "acts").mapM parseAct
-    let s := crun { pb := (← j.nat "pb") } acts
+    let pb ← j.nat "pb"
+    let s := crun { pb := pb } acts
+    -- optional: the state after the first k actions, for every k in `marks` (the ends of the harness's whole operations)
+    let marks ← match j.get? "marks" with | some _ => j.nats "marks" | none => pure []
     pure (J.mk [("accepted", J.ofBytes s.accepted), ("pending", J.arr (s.pending.map J.ofBytes)), ("disc", J.bool s.disc),
-                ("sending", J.bool s.sending), ("offered_after_disc", J.ofNat s.offeredAfterDisc)])
+                ("sending", J.bool s.sending), ("offered_after_disc", J.ofNat s.offeredAfterDisc),
+                ("trace", J.arr (marks.map fun k =>
+                    let t := crun { pb := pb } (acts.take k)
+                    J.ofNats [t.accepted.length, t.pending.flatten.length, if t.disc then 1 else 0, if t.sending then 1 else 0]))])
   else throw s!"unknown part {part}"
 
 def main : IO Unit := serve handle
